@@ -374,7 +374,8 @@ func fenceMatchNearbys(
 	s *Server, fence *liveFenceSwitches,
 	obj *object.Object,
 ) (nearbys []roamMatch) {
-	if obj == nil {
+	if obj == nil || !obj.IsSpatial() {
+		// a string value has no position, nothing is near it
 		return nil
 	}
 	col, _ := s.cols.Get(fence.roam.key)
